@@ -5,14 +5,14 @@ from harness import ringbuffer as R
 
 ID = "C09"
 PROPS = "props/C09.v"
-NEEDS = ["rb_wrap"]
+NEEDS = ["rb_wrap", "rb_normalize_timestamp", "gap_contains"]
 
 ASSUMPTIONS = [
     "every sample is later than datetime.min + capacity * period (newest == datetime.min is modelled as 'nothing written yet')",
     "datetime arithmetic does not overflow (timestamps far from datetime.min / datetime.max)",
     "to_internal_index: round(float seconds / float seconds) of a slot-aligned offset is the exact slot number (error << 0.5 for realistic epochs and periods; exercised by the correspondence with epochs around 1.7e9 s)",
     "sorted(gaps, key=start.timestamp()): float keys of distinct microsecond timestamps are distinct and ordered (true until year ~2242)",
-    "pickle round trip (serialization.dump/load) preserves the buffer state (exercised by the correspondence, identity in the model)",
+    "serialization.dump/load, pickle and copy.deepcopy preserve the buffer state: identity in the model; exercised at every kind of point of a history (before the first update, after rejects, after far jumps, with gaps) against the model AND against the never-copied original fed the same history",
 ]
 
 TRUSTED = [
@@ -41,9 +41,9 @@ META = {
                   "oldest/newest agree with the map; every window()/at() answer is, slot by slot, the stored valid value or the fill, only "
                   "for slots inside both the query and [oldest valid, newest], never more slots than the (rounded) query spans, and every "
                   "value was written to that slot by the history; normalize_timestamp is the nearest slot with ties to even (even periods). "
-                  "T-tie: OrderedRingBuffer.wrap is regenerated from /repo on every run (gen/RingBuffer.v) and used by the model; everything "
-                  "else is tied by correspondence (normalize_timestamp needs `+=`, Gap.contains has a field named `end`: both outside the "
-                  "translator's subset).",
+                  "T-tie: OrderedRingBuffer.wrap, OrderedRingBuffer.normalize_timestamp and Gap.contains are regenerated from /repo on every "
+                  "run (gen/RingBuffer.v) and are the functions the model computes with (`period / 2` enters normalize_timestamp as a "
+                  "parameter, modelled by td_half = timedelta true division rounded half-even); everything else is tied by correspondence.",
     "level_note": "Model follows the code AFTER three fix: commits in /repo (5c62ba0 window() normalises datetimes — F11/F12; b0ce417 "
                   "MovingWindow.at gap slots / index range — F13; c194ad4 count_covered exact division — new finding).  Not proved, only "
                   "exercised by correspondence: float rounding inside to_internal_index and the sort key, numpy vs list storage, pickle "
